@@ -63,6 +63,10 @@ fn canon_rust_res(res: &str) -> String {
     if res == "err:clap" {
         return "err:config".into();
     }
+    if res == "abort:crash" {
+        // the child process died (stack overflow / allocation abort): the model's `overflow` outcome
+        return "abort:overflow".into();
+    }
     res.replace("+overrun", "")
 }
 
@@ -74,6 +78,10 @@ fn differs(p: &Projection, c: &Case, rust: &Obs, model: &Obs) -> Option<String> 
     }
     if rr != mr {
         return Some(format!("result: impl={} model={} {}", rust.res, model.res, rust.panic_msg));
+    }
+    if rust.res == "abort:crash" || rust.res == "hang" {
+        // the child process died: what it had written is lost, only the outcome is comparable
+        return None;
     }
     if c.endless.is_some() {
         // the model is fed the finite prefix only: compare when the run stopped inside the prefix
@@ -139,6 +147,7 @@ fn main() {
     match args.cmd.as_str() {
         "run" => std::process::exit(cmd_run(&args)),
         "replay" => std::process::exit(cmd_replay(&args)),
+        "worker" => std::process::exit(cmd_worker(&args)),
         _ => {
             eprintln!("usage: harness run --prop Cxx --n N --seed S [--thorough] [--report f] | harness replay file.case");
             std::process::exit(2);
@@ -165,7 +174,6 @@ fn cmd_run(args: &Args) -> i32 {
     let mut r = rng::Rng::new(args.seed ^ (u64::from_str_radix(&prop[1..], 10).unwrap_or(0) << 32));
     let proj = projection(prop);
     let current = std::sync::Arc::new(std::sync::Mutex::new((String::new(), std::time::Instant::now())));
-    start_watchdog(current.clone(), 20);
 
     // 1. generate (corpus first)
     let mut groups: Vec<gens::Group> = vec![];
@@ -194,20 +202,22 @@ fn cmd_run(args: &Args) -> i32 {
         gid += 1;
     }
 
-    // 2. implementation side
-    let mut rust_obs: Vec<Vec<Obs>> = vec![];
+    // 2. implementation side, in a child process: a stack overflow or an allocation abort in the
+    //    code under test kills the child, not this run; the case is then recorded as `abort:crash`
     let mut lines: Vec<String> = vec![];
     for g in &groups {
-        let mut v = vec![];
         for c in &g.cases {
-            let line = c.line(&scratch.dir);
-            { let mut cur = current.lock().unwrap(); *cur = (line.clone(), std::time::Instant::now()); }
-            v.push(run_rust(c, &scratch));
-            lines.push(line);
+            lines.push(c.line(&scratch.dir));
         }
-        rust_obs.push(v);
     }
-    { let mut cur = current.lock().unwrap(); cur.0.clear(); }
+    let flat = run_rust_isolated(&lines, &scratch.dir);
+    let mut rust_obs: Vec<Vec<Obs>> = vec![];
+    let mut k0 = 0;
+    for g in &groups {
+        rust_obs.push(flat[k0..k0 + g.cases.len()].to_vec());
+        k0 += g.cases.len();
+    }
+    let _ = &current;
 
     // 3. model side
     let model_obs = match run_model(&lines, &scratch) {
@@ -223,6 +233,7 @@ fn cmd_run(args: &Args) -> i32 {
     let mut oracle_failures: Vec<(Vec<String>, String)> = vec![];
     let mut labels: BTreeMap<String, usize> = BTreeMap::new();
     let mut outcome_kinds: BTreeMap<String, usize> = BTreeMap::new();
+    let mut known_hits: BTreeMap<String, usize> = BTreeMap::new();
     let mut distinct_nontrivial = std::collections::BTreeSet::new();
     let mut samples: Vec<String> = vec![];
     let mut k = 0;
@@ -235,7 +246,12 @@ fn cmd_run(args: &Args) -> i32 {
                 disagreements.push((c.line(&scratch.dir), what));
             }
         }
-        if let Some(msg) = props::oracle(prop, g, robs) {
+        // known finding F9: runaway recursion (the model's `overflow` outcome) aborts the real program too.
+        // Such a group is counted, not judged: it is reported as KNOWN-FINDING by bin/check (property C05).
+        let f9 = robs.iter().zip(mobs).any(|(ro, mo)| canon_rust_res(&ro.res) == "abort:overflow" && canon_model_res(&mo.res) == "abort:overflow");
+        if f9 {
+            *known_hits.entry("F9".to_string()).or_insert(0) += 1;
+        } else if let Some(msg) = props::oracle(prop, g, robs) {
             oracle_failures.push((g.cases.iter().map(|c| c.line(&scratch.dir)).collect(), msg));
         }
         for l in &g.labels {
@@ -290,6 +306,8 @@ fn cmd_run(args: &Args) -> i32 {
     rep.push_str(&labels.iter().map(|(k, v)| format!("{}:{}", jstr(k), v)).collect::<Vec<_>>().join(","));
     rep.push_str("},\"outcomes\":{");
     rep.push_str(&outcome_kinds.iter().map(|(k, v)| format!("{}:{}", jstr(k), v)).collect::<Vec<_>>().join(","));
+    rep.push_str("},\"known_hits\":{");
+    rep.push_str(&known_hits.iter().map(|(k, v)| format!("{}:{}", jstr(k), v)).collect::<Vec<_>>().join(","));
     rep.push_str("},\"samples\":[");
     rep.push_str(&samples.iter().map(|s| jstr(s)).collect::<Vec<_>>().join(","));
     rep.push_str("],\"oracle_messages\":[");
@@ -351,4 +369,105 @@ fn cmd_replay(args: &Args) -> i32 {
         bad = true;
     }
     if bad { 1 } else { 0 }
+}
+
+
+fn obs_line(o: &Obs) -> String {
+    format!("res={} out={} err={} pulled={} opened={} msg={}", o.res, case::hex(&o.out), case::hex(&o.err),
+            o.pulled.iter().map(|x| x.to_string()).collect::<Vec<_>>().join(","), o.opened_stdin as u8, case::hex(o.panic_msg.as_bytes()))
+}
+
+fn parse_obs_line(l: &str) -> Obs {
+    let mut o = Obs::default();
+    for tok in l.split_whitespace() {
+        if let Some((k, v)) = tok.split_once('=') {
+            match k {
+                "res" => o.res = v.to_string(),
+                "out" => o.out = case::unhex(v),
+                "err" => o.err = case::unhex(v),
+                "pulled" => o.pulled = v.split(',').filter_map(|x| x.parse().ok()).collect(),
+                "opened" => o.opened_stdin = v == "1",
+                "msg" => o.panic_msg = String::from_utf8_lossy(&case::unhex(v)).into_owned(),
+                _ => {}
+            }
+        }
+    }
+    o
+}
+
+/// `harness worker <scratch-dir>`: case lines on stdin, one observation line per case on stdout
+fn cmd_worker(args: &Args) -> i32 {
+    use std::io::{BufRead, Write};
+    let dir = args.file.clone().unwrap_or_default();
+    let scratch = Scratch { dir: dir.clone() };
+    let current = std::sync::Arc::new(std::sync::Mutex::new((String::new(), std::time::Instant::now())));
+    // a case that takes longer than this hangs the worker: say so and die; the parent records it
+    {
+        let current = current.clone();
+        std::thread::spawn(move || loop {
+            std::thread::sleep(std::time::Duration::from_millis(500));
+            let since = { let g = current.lock().unwrap(); if g.0.is_empty() { None } else { Some(g.1) } };
+            if let Some(t) = since {
+                if t.elapsed().as_secs() >= 20 {
+                    println!("res=hang");
+                    std::io::stdout().flush().ok();
+                    std::process::exit(3);
+                }
+            }
+        });
+    }
+    let stdin = std::io::stdin();
+    let stdout = std::io::stdout();
+    for line in stdin.lock().lines() {
+        let Ok(line) = line else { break };
+        if !line.starts_with("id=") { continue }
+        let c = Case::from_line(&line, &dir);
+        { let mut g = current.lock().unwrap(); *g = (line.clone(), std::time::Instant::now()); }
+        let o = run_rust(&c, &scratch);
+        { let mut g = current.lock().unwrap(); g.0.clear(); }
+        let mut h = stdout.lock();
+        writeln!(h, "{}", obs_line(&o)).ok();
+        h.flush().ok();
+    }
+    std::mem::forget(scratch); // the parent owns the directory
+    0
+}
+
+/// run every case in a worker child; restart the child after a crash
+fn run_rust_isolated(lines: &[String], dir: &str) -> Vec<Obs> {
+    use std::io::{BufRead, Write};
+    let exe = std::env::current_exe().expect("current exe");
+    let mut res: Vec<Obs> = Vec::with_capacity(lines.len());
+    while res.len() < lines.len() {
+        let start = res.len();
+        let mut child = std::process::Command::new(&exe).arg("worker").arg(dir)
+            .stdin(std::process::Stdio::piped()).stdout(std::process::Stdio::piped()).stderr(std::process::Stdio::null())
+            .spawn().expect("spawn worker");
+        let mut stdin = child.stdin.take().unwrap();
+        let batch: Vec<String> = lines[start..].to_vec();
+        let feeder = std::thread::spawn(move || {
+            for l in batch {
+                if writeln!(stdin, "{l}").is_err() { break }
+            }
+        });
+        let out = std::io::BufReader::new(child.stdout.take().unwrap());
+        let mut hung = false;
+        for l in out.lines() {
+            let Ok(l) = l else { break };
+            if l == "res=hang" { hung = true; break }
+            res.push(parse_obs_line(&l));
+            if res.len() == lines.len() { break }
+        }
+        let status = child.wait().ok();
+        let _ = feeder.join();
+        if res.len() < lines.len() && res.len() >= start {
+            // the child died on case `res.len()` (or hung on it)
+            let what = if hung { "hang".to_string() } else { format!("abort:crash:{:?}", status.map(|s| s.to_string())) };
+            if hung {
+                println!("HANG {}", lines[res.len()]);
+            }
+            res.push(Obs { res: if hung { "hang".into() } else { "abort:crash".into() }, panic_msg: what, ..Default::default() });
+        }
+    }
+    res
 }
